@@ -43,6 +43,7 @@ var seedsJS = []string{
 	"({[[x]]:a})=>a", "({[{x:1}.x]:b})=>b", "x={...a=1}", "[...a=1]=b", "({...a=1}=b)", "(a=1,{b=2},[c=3])=>0", "(...a=1)=>0", "(a,...[b=1])=>0",
 	"if (a) b; else if (c) d; else if (e) f; else if (g) h; else i", "if (a) {} else if (b) {} else if (c) {}", "if (a) if (b) c; else if (d) e; else if (f) g; else h; else i",
 	"x = a + b + c + d; y = a - (b - c) - d; z = a * b + c * d - e", "x = a && b && c || d || e ?? f",
+	"function* g(){ f = async x => yield (x); h = async (y) => yield (y); k = z => yield (z); yield (1) }", "async function a(){ f = x => await (x); g = function(){ await (1) } }",
 	"function f(a=b,...c){var b} class A{m(p=q){var q} static{var x}} x={m(p=q){let q}}", "x = async (a, b) => a + b; async(a, b); var async",
 }
 
